@@ -1,6 +1,6 @@
 from ._safe import isinstance
 from .engine import E, Engine, Unsupported, PathEnd
-from .values import (SV, SBool, SNum, SStr, SSeq, SJson, J, And, Or, Not, Implies, Iff, Eq, If, smax, smin,
+from .values import (SV, SBool, SNum, SStr, SSeq, SJson, J, And, Or, Not, Implies, Iff, Eq, If, smax, smin, is_multiple,
                      draw_bool, draw_int, draw_real, draw_str, draw_json, draw_seq, draw_opt, draw_enum, draw_lazy, draw_fin, resolve, SFin, vc_len)
 from .loader import load, LoopSpec, Shadow, suspend, Suspend, drive
 from .harness import harness, Harness, Ctx, REGISTRY
